@@ -37,6 +37,15 @@ def programs(tier):
     P.append(("wired", 'Signal a = ("signal-A", 3);\nEntity l = place("small-lamp", 5, -6);\nl.enable = a > 2;\nEntity m = place("small-lamp", 45, -6);\nm.enable = a * 2 > 3;\n'
               'Entity c = place("steel-chest", 25, -30);\nSignal s = c.output["iron-plate"] + a;\n',
               [("small-lamp", 5, -6, ()), ("small-lamp", 45, -6, ()), ("steel-chest", 25, -30, ())]))
+    # coordinates that are arithmetic on int variables whose initialisers are expressions, incl. operands equal to 0
+    P.append(("computed-origin", 'int cols = 5;\nint x0 = cols * 3 - 14;\nint y0 = 0 - cols - 3;\nint zero = cols - 5;\n'
+              'for i in 0..4 {\n  for j in 0..3 {\n    Entity l = place("small-lamp", x0 + i, y0 - j * 2, {color_mode: 1});\n  }\n}\n'
+              'Entity c = place("steel-chest", zero + 8, zero - 4);\nEntity d = place("inserter", zero, y0 * zero - 2);\n',
+              [("small-lamp", 1 + i, -8 - j * 2, (("color_mode", 1),)) for i in range(4) for j in range(3)] +
+              [("steel-chest", 8, -4, ()), ("inserter", 0, -2, ())]))
+    P.append(("zero-operands", 'int z = 3 - 3;\nint k = 4;\nEntity a1 = place("small-lamp", z + k, z - 9);\nEntity a2 = place("small-lamp", k * z + 2, k - k - 7);\n'
+              'Entity a3 = place("small-lamp", z, 0 - k);\nfor i in 0..2 {\n  Entity l = place("inserter", i * k, i - 12);\n}\n',
+              [("small-lamp", 4, -9, ()), ("small-lamp", 2, -7, ()), ("small-lamp", 0, -4, ()), ("inserter", 0, -12, ()), ("inserter", 4, -11, ())]))
     for n in (2, 9, 120):
         P.append((f"loop-{n}", f'Signal a = ("signal-A", 3);\nfor i in 0..{n} {{\n    Entity l = place("small-lamp", i, -6);\n    l.enable = a > i;\n}}\n',
                   [("small-lamp", i, -6, ()) for i in range(n)]))
